@@ -17,8 +17,10 @@ func init() {
 
 // amount returns the numeric argument: lengths {0,1,8,9} (quick) so that zero, one-byte,
 // 2^64-1 and multi-word values are in range; every length 0..16 (thorough).
+var fullAmounts bool
+
 func amount(tag string) []byte {
-	if small {
+	if small && !fullAmounts {
 		return verif.Bytes(tag, 1)
 	}
 	if verif.Thorough() {
